@@ -362,16 +362,19 @@ def _read(listing, case, recs):
     """(ids per managed file oldest..newest incl. active last, ids of top archive, ids of active) or error str"""
     b, c, limit, pre, gz, pattern, file, mode0, nohook, init, ops = case
     d = dict(listing)
+    # pre-existing archives are plain text; they stay plain while they move up the window
+    pre_plain = set(name_of(pattern, i) for i in range(b, b + c)) if any(
+        (p if isinstance(p, str) else p.decode()) in [name_of(pattern, i) for i in range(b, b + c)] for p, _ in init) else ()
     files = []
     top_ids = []
     for i in range(b + c - 1, b - 1, -1):
         p = name_of(pattern, i).encode()
         if p in d:
             content = d[p]
-            if gz:
-                if content[:2] != b"\x1f\x8b":
-                    return "archive %s is not a complete gzip stream" % p.decode()
+            if gz and content[:2] == b"\x1f\x8b":      # (a pre-existing archive may be plain text)
                 content = content[2:]
+            elif gz and p.decode() not in pre_plain:
+                return "archive %s is not a complete gzip stream: %r" % (p.decode(), content)
             ids = _parse_file(content, recs)
             if ids is None:
                 return "archive %s does not consist of whole records: %r" % (p.decode(), content)
@@ -486,6 +489,25 @@ def describe(c):
             "pattern": pattern, "file": file, "builder_append": bool(mode0), "hook_installed": not nohook,
             "initial_files": [p if isinstance(p, str) else p.decode() for p, _ in init],
             "ops": [_opd(o) for o in ops]}
+
+
+def run_impl(ctx, cases, lines):
+    """the real crate, in 4 parallel worker processes (each case has its own temp dir = the
+    worker's cwd), temp dirs on tmpfs when available"""
+    import concurrent.futures
+    import os
+    vc = ctx["vc"]
+    env = dict(vc.ENV)
+    if os.path.isdir("/dev/shm") and os.access("/dev/shm", os.W_OK):
+        env["TMPDIR"] = "/dev/shm"
+    nw = 4
+    chunks = [lines[i::nw] for i in range(nw)]
+    with concurrent.futures.ThreadPoolExecutor(nw) as ex:
+        res = list(ex.map(lambda ch: vc.run_lines([ctx["vh"]], ch, timeout_per_batch=600, env=env), chunks))
+    out = [None] * len(lines)
+    for w in range(nw):
+        out[w::nw] = res[w]
+    return out
 
 
 def extra_checks(ctx, cases, impl_lines, model_lines):
